@@ -11,6 +11,7 @@ R  every kept-mask of the same grids through the real trim (int data/[0]; float 
    identified by its coordinates and must be the bounding box, with the original's cells and attrs.
 T  seeded larger rasters: dtypes, scales, coordinate orders, dims, tuple/list arguments, memory layouts.
 """
+import hashlib
 import itertools
 import json
 import random
@@ -139,6 +140,10 @@ def random_jobs(rng, n):
     return jobs
 
 
+def digest(*parts):
+    return hashlib.md5(json.dumps(parts).encode()).hexdigest()[:14]
+
+
 def strip(case):
     return {k: v for k, v in case.items() if k not in ("job", "tag", "error")}
 
@@ -168,9 +173,8 @@ class Tally:
             H, W = case["H"], case["W"]
             o = case["out"]
             # non-trivial: the minimal window is a proper sub-window of the raster
-            ctx_key = (kind, case["tag"], H, W, json.dumps(case["data"]), json.dumps(case["list"]))
             if case.get("proper"):
-                ctx.nontrivial(ctx_key)
+                ctx.nontrivial(digest(kind, case["tag"], case["data"], case["list"]))
             if cl != "ok":
                 self.viol(key_of(case, cl), cl, case,
                           "%s %dx%d %s list=%s -> window %dx%d" % (case["tag"], H, W, case["job"]["dtype"],
@@ -210,6 +214,42 @@ def observe(ctx, jobs, name, tally, kind, parallel=6):
     ctx.judge_extra.update(extra)
     tally.handle(cases, verdicts, kind)
     return cases
+
+
+CHUNK = 60000      # cases per fan-out: bounds the memory of the driver and of the judge JVMs
+
+
+def replay_jobs(rng, thorough):
+    """Every kept-mask of the listed grids in every value encoding (generator)."""
+    small = [(1, 1), (1, 2), (2, 1), (2, 2), (1, 3), (3, 1), (2, 3), (3, 2), (3, 3), (1, 4), (4, 1), (1, 5),
+             (5, 1), (1, 6), (6, 1), (2, 4), (4, 2)]
+    mid = [(3, 4), (4, 3)]
+    for (H, W) in small + mid:
+        for mask in all_masks(H, W):
+            for fam in FAMILIES:
+                if (H, W) in mid and not thorough and fam in ("int_0_2", "crop_2"):
+                    continue
+                yield mark_proper(fam_job(fam, mask, H, W), mask)
+    for mask in all_masks(4, 4):
+        for fam in FAMILIES:
+            # quick: the full 4x4 mask space on integer data, a seeded 1/16 of it in the other encodings
+            if (thorough and fam not in ("int_0_2", "crop_2")) or fam == "int_0" or rng.random() < 1 / 16:
+                yield mark_proper(fam_job(fam, mask, 4, 4), mask)
+    if thorough:
+        for (H, W) in [(2, 7), (7, 2), (1, 10), (10, 1), (3, 5), (5, 3)]:
+            for mask in all_masks(H, W):
+                for fam in ("int_0", "float_nan_0", "crop_1_2"):
+                    if H * W == 15 and fam == "crop_1_2":
+                        continue
+                    yield mark_proper(fam_job(fam, mask, H, W), mask)
+
+
+def replay_chunk(ctx, jobs, name, tally, sample=False):
+    cases = observe(ctx, jobs, name, tally, "R")
+    if sample:
+        for c in cases[:: max(1, len(cases) // 4)][:4]:
+            ctx.sample({"kind": "replay", "tag": c["tag"], "data": c["data"], "list": c["list"],
+                        "scan": c.get("scan"), "out_shape": [c["out"]["h"], c["out"]["w"]] if "out" in c else None})
 
 
 def mark_proper(job, mask):
@@ -275,39 +315,26 @@ def run(ctx):
     ctx.exhaustive = True
 
     # ------------------------------------------------------------------ R: every kept-mask through the code
-    small = [(1, 1), (1, 2), (2, 1), (2, 2), (1, 3), (3, 1), (2, 3), (3, 2), (3, 3), (1, 4), (4, 1), (1, 5),
-             (5, 1), (1, 6), (6, 1), (2, 4), (4, 2)]
-    mid = [(3, 4), (4, 3)]
-    jobs = []
-    for (H, W) in small + mid:
-        for mask in all_masks(H, W):
-            for fam in FAMILIES:
-                if (H, W) in mid and not thorough and fam in ("int_0_2", "crop_2"):
-                    continue
-                jobs.append(mark_proper(fam_job(fam, mask, H, W), mask))
     rng = random.Random(ctx.seed * 7919 + 18)
-    for mask in all_masks(4, 4):
-        for fam in FAMILIES:
-            # quick: the full 4x4 mask space on integer data, a seeded 1/16 of it in the other encodings
-            if thorough or fam == "int_0" or rng.random() < 1 / 16:
-                jobs.append(mark_proper(fam_job(fam, mask, 4, 4), mask))
-    if thorough:
-        for (H, W) in [(2, 7), (7, 2), (1, 10), (10, 1), (3, 5), (5, 3)]:
-            for mask in all_masks(H, W):
-                for fam in ("int_0", "float_nan_0", "crop_1_2"):
-                    jobs.append(mark_proper(fam_job(fam, mask, H, W), mask))
-    ctx.note("R: %d cases (every kept-mask of the listed grids x value encodings)" % len(jobs))
-    cases = observe(ctx, jobs, "replay_masks", tally, "R")
-    for c in cases[:: max(1, len(cases) // 4)][:4]:
-        ctx.sample({"kind": "replay", "tag": c["tag"], "data": c["data"], "list": c["list"],
-                    "scan": c.get("scan"), "out_shape": [c["out"]["h"], c["out"]["w"]] if "out" in c else None})
+    total, chunk, part = 0, [], 0
+    for job in replay_jobs(rng, thorough):
+        chunk.append(job)
+        if len(chunk) == CHUNK:
+            total += len(chunk)
+            part += 1
+            replay_chunk(ctx, chunk, "replay_masks_%d" % part, tally, sample=(part == 1))
+            chunk = []
+    if chunk:
+        total += len(chunk)
+        replay_chunk(ctx, chunk, "replay_masks_%d" % (part + 1), tally, sample=(part == 0))
+    ctx.note("R: %d cases (every kept-mask of the listed grids x value encodings)" % total)
 
     # ------------------------------------------------------------------ T: seeded larger rasters
     jobs = random_jobs(rng, ctx.pick(300, 4000))
     cases = observe(ctx, jobs, "random_rasters", tally, "T", parallel=ctx.pick(4, 8))
     for c in cases:
         if "out" in c and (c["out"]["h"], c["out"]["w"]) != (c["H"], c["W"]):
-            ctx.nontrivial(("T", json.dumps(c["data"]), json.dumps(c["list"]), c["tag"]))
+            ctx.nontrivial(digest("T", c["tag"], c["data"], c["list"]))
     for c in cases[:2]:
         ctx.sample({"kind": "random", "tag": c["tag"], "shape": [c["H"], c["W"]], "list": c["list"],
                     "scan": c.get("scan"), "out_shape": [c["out"]["h"], c["out"]["w"]] if "out" in c else None})
